@@ -46,7 +46,7 @@ def build(tier, seed):
         'bounds': bounds,
         'required_classes': ['adjacent-zeros', 'leading-zero', 'sign-change-without-zero', 'first-excursion-starts-at-0',
                              'first-excursion-max-at-0', 'excursion-3-levels', 'tie-in-excursion', 'zero-valued-reported',
-                             'tol-removes-something'],
+                             'tol-removes-something', 'same-array-sequence'],
         'assumptions': ['index-valued outputs are compared exactly', 'reference: scanning loops in mcheck/refs/peaks_ref.py',
                         'switched peaks of constant series are outside the statement (get_peak_array_indices needs a non-constant series)'],
     }
@@ -161,6 +161,57 @@ def check_word(r, w, fam, containers=('f', 'i', 'l')):
                     r.fail('switched.tol-subsequence', sub, 'malformed result: %s' % e, observed=got)
 
 
+def check_sequence(r, w, fam):
+    """One float64 array object handed to a sequence of queries (tolerance queries first), the way a caller analyses one
+    record: every answer must be the answer for the record, and the array must come back unchanged.  Also narrow integer
+    dtypes with large steps (products of differences overflow int16)."""
+    n = len(w)
+    sub0 = {'fam': fam, 'w': w}
+    xf = np.array(w, dtype=float)
+    snap = xf.tobytes()
+    seq = [('crossings tol=0.5', lambda: pc.get_zero_crossings_array_indices(xf, tol=0.5), None),
+           ('switched tol=0.5', lambda: pc.get_switched_peak_array_indices(xf, tol=0.5), None),
+           ('crossings', lambda: pc.get_zero_crossings_array_indices(xf), ref.zero_crossings(w, False)),
+           ('crossings keep', lambda: pc.get_zero_crossings_array_indices(xf, keep_adj_zeros=True), ref.zero_crossings(w, True))]
+    nonconst = len(set(w)) > 1
+    if not nonconst:
+        seq = [q for q in seq if not q[0].startswith('switched')]
+    for qname, fn, want in seq:
+        sub = dict(sub0, after_queries_on_same_array=qname)
+        ok, got = r.call('sequence', sub, fn)
+        r.n_cmp += 1
+        if xf.tobytes() != snap:
+            r.fail('sequence.array-unchanged', sub, 'the query modified the array it was given', observed=xf, expected=w)
+            xf[...] = np.array(w, dtype=float)
+        if ok and want is not None:
+            r.expect_ints('sequence.crossings', sub, got, want)
+    if nonconst:
+        ok, got = r.call('sequence', dict(sub0, after_queries_on_same_array='switched'), pc.get_switched_peak_array_indices, xf)
+        if ok:
+            try:
+                errs = ref.check_switched(w, as_ints(got))
+                r.n_cmp += 1
+                if errs:
+                    r.fail('sequence.switched', sub0, 'after tolerance queries on the same array: ' + errs[0][1], observed=got)
+            except Exception as e:
+                r.fail('sequence.switched', sub0, 'malformed: %s' % e)
+        # narrow integer dtype, large steps: same structure as the word itself (scaling by 100 changes no sign and no order)
+        xi16 = (np.array(w) * 100).astype(np.int16)
+        ok, got = r.call('switched', dict(sub0, input='int16 x100'), pc.get_switched_peak_array_indices, xi16)
+        if ok:
+            try:
+                errs = ref.check_switched([100 * v for v in w], as_ints(got))
+                r.n_cmp += 1
+                if errs:
+                    r.fail('switched.' + errs[0][0], dict(sub0, input='int16 x100'), errs[0][1], observed=got)
+            except Exception as e:
+                r.fail('switched', dict(sub0, input='int16 x100'), 'malformed: %s' % e)
+        ok, got = r.call('crossings', dict(sub0, input='int16 x100'), pc.get_zero_crossings_array_indices, xi16)
+        if ok:
+            r.expect_ints('crossings.exact', dict(sub0, input='int16 x100'), got, ref.zero_crossings(w, False))
+    r.cls('same-array-sequence')
+
+
 def run_case(case):
     r = Res()
     fam = case['fam']
@@ -173,6 +224,7 @@ def run_case(case):
     lmax = case['lmax']
     if len(root) >= 2:
         check_word(r, list(root), fam)
+        check_sequence(r, list(root), fam)
     else:
         r.disabled['length-1-word'] += 1
     for n in range(len(root) + 1, lmax + 1):
@@ -180,6 +232,8 @@ def run_case(case):
             w = list(root + ext)
             r.transitions += 1
             check_word(r, w, fam, containers=('f', 'i') if n >= 6 else ('f', 'i', 'l'))
+            if n <= 6:
+                check_sequence(r, w, fam)
     return r
 
 
